@@ -4,7 +4,7 @@ from __future__ import annotations
 
 import ast
 
-from ..model import body_walk, dotted, idents_in, norm, unparse
+from ..model import body_walk, const_value, dotted, idents_in, norm, unparse
 from ..purity import AliasAnalysis
 from ..report import RuleResult
 from .c20 import r20_7
@@ -114,7 +114,41 @@ def r25_3(ctx):
     return rr
 
 
-RULES = [r25_1, r25_2, r25_3]
+LOCAL_SCHEDULER_NAMES = {"sync", "synchronous", "single-threaded", "threads", "threading"}  # run tasks in this process against the real target
+
+
+def r25_4(ctx):
+    rr = RuleResult("R25.4", "REF", "store treats only in-process schedulers (sync/threads) as able to write into the caller's in-memory target", min_instances=1)
+    repo = ctx.repo
+    m = repo.mod("dask_array.io._store")
+    f = m.functions.get("_nonlocal_scheduler_active")
+    need(f is not None, "dask_array/io/_store.py::_nonlocal_scheduler_active")
+    tests = [n for n in body_walk(f.node) if isinstance(n, ast.Compare) and any(isinstance(op, (ast.In, ast.NotIn)) for op in n.ops)]
+    need(tests, "membership test on the scheduler name in _nonlocal_scheduler_active")
+    for t in tests:
+        cont = t.comparators[0]
+        names = None
+        if isinstance(cont, ast.Name):
+            r = repo.resolve_name(cont.id, m, f)
+            if r and r[0] == "value":
+                v = r[1][0].assigns.get(r[1][1])
+                if isinstance(v, ast.Call) and v.args:
+                    v = v.args[0]
+                names = const_value(v) if v is not None else None
+        else:
+            names = const_value(cont)
+        cst = site(f, t)[:150]
+        rr.inst(cst, container=unparse(cont), names=sorted(names) if isinstance(names, (set, frozenset, list, tuple)) else None)
+        if not isinstance(names, (set, frozenset, list, tuple)):
+            ctx.finding(rr, cst, f"the set of scheduler names treated as local ({unparse(cont)}) is not a literal the checker can read (e.g. dask's named_schedulers, which includes process pools): a process-pool scheduler pickles the target and writes to a copy", func=f, node=t)
+            continue
+        extra = sorted(set(names) - LOCAL_SCHEDULER_NAMES)
+        if extra:
+            ctx.finding(rr, cst, f"scheduler name(s) {extra} are treated as local by store, but only {sorted(LOCAL_SCHEDULER_NAMES)} run tasks in the caller's process: writes would land in a pickled copy of the target", func=f, node=t)
+    return rr
+
+
+RULES = [r25_1, r25_2, r25_3, r25_4]
 
 LEVEL_TEXT = (
     "Static decision of the structural clauses of C25: the per-block target-slice literals of da.store are computed from a "
